@@ -212,6 +212,12 @@ def judge(rep, item, mo, control):
         rep.samples.append({'plan': plan, 'run1': run1, 'run2': r.get('run2')})
     rep.count('kind_' + plan['kind'])
     rep.count('point_' + plan['point'])
+    # how far this machine is from the wall-clock bounds the verdicts use (BOUND for a failure
+    # to surface, 2*BOUND+20 for a whole plan): the margin is part of the evidence
+    rep.extra['slowest_plan_wall_s'] = max(rep.extra.get('slowest_plan_wall_s', 0), impl['wall'])
+    rep.extra['slowest_raise_latency_s'] = max(rep.extra.get('slowest_raise_latency_s', 0),
+                                               run1.get('latency', 0) if run1.get('fired') else 0)
+    rep.extra['bounds_s'] = {'raise_latency': BOUND, 'whole_plan': BOUND * 2 + 20}
     name = f"{plan['kind']}@{plan['point']} file {plan['file']}/{plan['nfiles']} " \
            f"workers {plan['workers']} k={plan.get('k', 1)}" + \
            (f" hold={plan['hold']}s" if plan.get('hold') else '') + \
